@@ -13,7 +13,7 @@ CHOICES = {
     'concrete_style': ('absent', 'false'),   # concrete feature: no abstract attribute / abstract="false"
     'graphics': (False, True),            # <graphics> children of features and rules
     'description': (False, True),         # <description> children of features and rules
-    'nary': (2, 3, 4),                    # maximum number of operands of conj / disj
+    'nary': (2, 3, 4, 7),                    # maximum number of operands of conj / disj
     'empty_constraints': ('element', 'selfclosed', 'missing'),   # when there are no constraints
     'extra_sections': (False, True),
     'indent': (True, False),
@@ -156,5 +156,5 @@ def selftest():
         names = [e.attrib['name'] for e in root.iter() if e.tag in ('and', 'or', 'alt', 'feature')]
         assert names == ['Fa', 'Bb', 'X1', 'X2', 'D c'], names
         conj = root.find('./constraints/rule/conj')
-        want = {2: 2, 3: 3, 4: 4}[ch['nary']]
+        want = {2: 2, 3: 3, 4: 4, 7: 4}[ch['nary']]
         assert len(list(conj)) == want, (ch['nary'], len(list(conj)))
